@@ -27,6 +27,30 @@ C_RESERVED = {
     "union", "unsigned", "void", "volatile", "while", "bool", "true", "false", "malloc", "realloc", "free", "NULL",
 }
 DOCUMENTED = {"DiagonalAccessError", "NoKernelFoundError"}
+COLLISION = "<generated-name-collision>"
+
+
+def _ident_finding(f, reserved):
+    """known findings about identifiers: F13 (a user name is a C keyword / allocator name) and F15 (two GENERATED
+    names coincide: the bucket of a scalar target called pos/crd is `bucket_0_pos`/`bucket_0_crd`, which is also the
+    level-0 array of an input tensor called `bucket`; Lean witness `bucket_name_collision`)"""
+    p = f.get("signature", {}).get("predicate")
+    if p == "reserved-identifier":
+        return any(x in C_RESERVED for x in reserved)
+    if p == "generated-name-collision":
+        return COLLISION in reserved
+    return False
+
+
+def generated_name_collision(pr) -> bool:
+    """the shape of F15: target named pos or crd, an operand named `bucket` whose level 0 is compressed (the
+    coinciding name appears when a bucket without layer suffix is opened: order-0 target, or a contraction
+    below the last output layer)"""
+    a = pr.assignment
+    if a.target.name not in ("pos", "crd"):
+        return False
+    fm = pr.fmts.get("bucket")
+    return fm is not None and len(fm[0]) >= 1 and fm[0][0] == "s"
 
 
 class Timeout(Exception):
@@ -99,6 +123,9 @@ def run(chk: Check, drv: Driver):
         ident_texts.append(f"{nm}(i) = b(i) * c(i)")
         ident_texts.append(f"a({nm}) = b({nm}) * c({nm})")
         ident_texts.append(f"a(i) = {nm}(i,j) * c(j)")
+    # names that the generator itself builds (F15 is the only coincidence: Lean `input_arrays_disjoint`, `bucket_name_collision`)
+    ident_texts += ["pos() = bucket(i)", "crd() = bucket(i) * c(i)", "vals() = bucket(i)", "pos(i) = bucket(i,j) * c(j)", "a() = bucket(i) * pos(i)",
+                    "dim() = i(j)", "p(i) = vals(i) + capacity(i)", "written(i) = end(i) * crd(i)"]
     runner = CliRunner()
     c_jobs = []
     graph_prs = []
@@ -115,7 +142,7 @@ def run(chk: Check, drv: Driver):
         return model.get(pr.key()) == ("graph", False)
 
     for pr in all_prs:
-        reserved = sorted(names_of(pr) & C_RESERVED)
+        reserved = sorted(names_of(pr) & C_RESERVED) + ([COLLISION] if generated_name_collision(pr) else [])
         graph_prs.append(pr)
         for kinds in ([rng.choice(kind_sets)] if quick else kind_sets):
             for lang in ("c", "llvm"):
@@ -128,7 +155,7 @@ def run(chk: Check, drv: Driver):
                 except BaseException as e:  # noqa: BLE001
                     f = chk.match_known(lambda f: (f.get("signature", {}).get("kind") == "exception-site" and f["signature"].get("type") == type(e).__name__
                                                    and _raised_in(e, f["signature"]) and f3_predicted(pr))
-                                        or (f.get("signature", {}).get("predicate") == "reserved-identifier" and reserved))
+                                        or (_ident_finding(f, reserved)))
                     if f:
                         chk.known(f["id"], f["what"])
                     else:
@@ -151,7 +178,7 @@ def run(chk: Check, drv: Driver):
                         m = llvm.parse_assembly(code)
                         m.verify()
                     except Exception as e:  # noqa: BLE001
-                        f = chk.match_known(lambda f: f.get("signature", {}).get("predicate") == "reserved-identifier" and reserved)
+                        f = chk.match_known(lambda f: _ident_finding(f, reserved))
                         if f:
                             chk.known(f["id"], f["what"])
                         else:
@@ -170,7 +197,7 @@ def run(chk: Check, drv: Driver):
             chk.count("tm_" + name)
             if name not in DOCUMENTED:
                 f = chk.match_known(lambda f: (f.get("signature", {}).get("kind") == "exception-site" and f["signature"].get("type") == name and _raised_in(e, f["signature"]) and f3_predicted(pr))
-                                    or (f.get("signature", {}).get("predicate") == "reserved-identifier" and reserved))
+                                    or (_ident_finding(f, reserved)))
                 if f:
                     chk.known(f["id"], f["what"])
                 else:
@@ -181,7 +208,7 @@ def run(chk: Check, drv: Driver):
         if res.exit_code not in (0, 1) or (res.exception is not None and not isinstance(res.exception, SystemExit)):
             exc = res.exception
             f = chk.match_known(lambda f: (f.get("signature", {}).get("kind") == "exception-site" and f["signature"].get("type") == type(exc).__name__ and _raised_in(exc, f["signature"]) and f3_predicted(pr))
-                                or (f.get("signature", {}).get("predicate") == "reserved-identifier" and reserved))
+                                or (_ident_finding(f, reserved)))
             if f:
                 chk.known(f["id"], f["what"])
             else:
@@ -197,7 +224,7 @@ def run(chk: Check, drv: Driver):
                 rc, err = fut.result()
                 chk.count("gcc_checked")
                 if rc != 0:
-                    f = chk.match_known(lambda f: f.get("signature", {}).get("predicate") == "reserved-identifier" and reserved)
+                    f = chk.match_known(lambda f: _ident_finding(f, reserved))
                     if f:
                         chk.known(f["id"], f["what"])
                     else:
